@@ -186,6 +186,21 @@ def df_case(rec, seedt):
 
 
 def grid(rng, kind, n):
+    if kind in ("notched", "zoomed", "symmetric") and n >= 6:
+        # grids that look uniform from their first and last steps but are not
+        f = np.arange(n, dtype=float) * 0.5 + 1.0
+        if kind == "notched":
+            k = int(rng.integers(2, n - 2))
+            f[k:] += float(rng.uniform(1.0, 20.0))          # a gap (removed band)
+        elif kind == "zoomed":
+            a, b = sorted(rng.integers(1, n - 1, size=2))
+            dense = np.linspace(f[a], f[min(b + 1, n - 1)], 4 * max(1, b - a) + 2)
+            f = np.unique(np.concatenate([f, dense]))
+        else:
+            steps = rng.uniform(0.1, 2.0, size=(n - 1) // 2)
+            mid = [] if (n - 1) % 2 == 0 else [float(rng.uniform(0.1, 2.0))]
+            f = np.concatenate([[1.0], 1.0 + np.cumsum(np.concatenate([steps, mid, steps[::-1]]))])
+        return f
     if kind == "linear":
         return np.linspace(0.1, 10.0, n)
     if kind == "log":
@@ -202,7 +217,9 @@ def rms_case(rec, seedt):
     from speckit import dsp
     rng = gen.rng_for(*seedt)
     n = int(rng.choice([1, 2, 3, 10, 200, 3000]))
-    f = grid(rng, str(rng.choice(["linear", "log", "plan", "random"])), n)
+    f = grid(rng, str(rng.choice(["linear", "log", "plan", "random", "notched", "zoomed",
+                                  "symmetric"])), n)
+    n = len(f)
     akind = str(rng.choice(["flat", "power", "random", "zeros"]))
     if akind == "flat":
         asd = np.full(n, 2.5)
